@@ -872,8 +872,8 @@ pub(super) fn load_sheet<R: Read + std::io::Seek>(
     let mut sheet_data = SheetData::new();
     let sheet_data_nodes = ws
         .children()
-        .filter(|n| n.has_tag_name("sheetData"))
-        .collect::<Vec<Node>>()[0];
+        .find(|n| n.has_tag_name("sheetData"))
+        .ok_or_else(|| XlsxError::Xml(format!("Missing sheetData in {path}")))?;
 
     let default_row_height = 14.5;
 
